@@ -121,7 +121,7 @@ def package_findings(pid, root, out_pkg, core_pkg):
 # C12: import scan
 # ----------------------------------------------------------------------------------------------
 STDLIB = set(sys.stdlib_module_names)
-RUNTIME_DEPS = {"httpx", "cattrs", "attrs", "attr", "cattr", "typing_extensions"}
+RUNTIME_DEPS = {"httpx", "cattrs", "attrs", "attr", "cattr"}   # what the property names; dependencies OF those (typing_extensions ...) are not the client's to import
 
 
 def scan_imports(root, out_pkg, core_pkg):
